@@ -27,7 +27,7 @@
 EXTENDS Modules, Json, IOUtils, TLCExt
 
 CONSTANT Strict
-TraceDirs == {<<>>, <<"d">>}
+TraceDirs == {<<>>, <<"d">>, <<"e">>}
 
 Rec == ndJsonDeserialize(IOEnv.TRACE)
 
@@ -41,7 +41,8 @@ Ev(e) == l <= Len(Rec) /\ Rec[l].ev = e
 
 Mod(r) == [dir |-> r.dir, name |-> r.name,
            imports |-> [x \in 1..Len(r.imports) |-> [dir |-> r.imports[x].dir, name |-> r.imports[x].name]],
-           decls |-> [x \in 1..Len(r.decls) |-> [n |-> r.decls[x].n, k |-> r.decls[x].k, pub |-> r.decls[x].pub, body |-> TRUE]]]
+           decls |-> [x \in 1..Len(r.decls) |-> [n |-> r.decls[x].n, k |-> r.decls[x].k, pub |-> r.decls[x].pub,
+                                                 body |-> r.decls[x].body, ext |-> r.decls[x].ext]]]
 
 TMods == /\ Ev("mods") /\ tphase = "idle"
          /\ LET ms == [i \in 1..Len(Rec[l].mods) |-> Mod(Rec[l].mods[i])]
@@ -59,7 +60,7 @@ TSplice == /\ Ev("splice") /\ tphase = "splice"
                  /\ taken' = taken \cup {p}
            /\ l' = l + 1 /\ UNCHANGED <<tphase, mods, phase>>
 
-Obs(d) == [n |-> d.n, k |-> d.k, pub |-> d.pub, body |-> d.body]
+Obs(d) == [n |-> d.n, k |-> d.k, pub |-> d.pub, body |-> d.body, ext |-> d.ext]
 KindOfName(nm) == DeclOf(mods, nm).k
 ProbeOK(i, p) == IF p.n \in Visible(mods, i) THEN p.codes = <<>>
                  ELSE \E x \in 1..Len(p.codes) : p.codes[x] = UndefinedCode(KindOfName(p.n))
